@@ -233,7 +233,7 @@ def _explore_chunk(idx):
         files.update(getattr(c, 'files', None) or {})
     core.write_pkg(d, files)
     t0 = time.time()
-    ok, out = core.compile_js(d, minify=bool(_WORK.get('minify')))
+    ok, out = core.compile_js(d, minify=bool(_WORK.get('minify')), keep_all=bool(_WORK.get('keep_all')))
     if not ok:
         for c in ch:
             rep.cases += 1
@@ -302,12 +302,14 @@ class Report:
             self.flags[k] = self.flags.get(k, 0) + v
 
 
-def check_cases(cases, workdir, chunk=40, cfg=None, jobs=None, z3_timeout_ms=30000, report=None, progress=None, known=None, minify=False):
+def check_cases(cases, workdir, chunk=40, cfg=None, jobs=None, z3_timeout_ms=30000, report=None, progress=None, known=None, minify=False, keep_all=False):
     """Compile, explore and verify all cases (in parallel, one process per chunk).  Returns a Report."""
     rep = report or Report()
     rep.known = known or []
     chunks = [cases[i:i + chunk] for i in range(0, len(cases), chunk)]
-    _WORK.update(chunks=chunks, workdir=workdir, cfg=dict(cfg or {}), known=known or [], z3_timeout_ms=z3_timeout_ms, minify=minify)
+    _WORK.update(chunks=chunks, workdir=workdir, cfg=dict(cfg or {}), known=known or [], z3_timeout_ms=z3_timeout_ms, minify=minify, keep_all=keep_all)
+    if keep_all:
+        core.gopherjs_keepall_bin()
     jobs = jobs or min(len(chunks), max(1, (os.cpu_count() or 4)))
     core.gopherjs_bin()     # build the compiler once, before forking
     t0 = time.time()
@@ -678,7 +680,7 @@ def fp_bits(v, t):
     raise ValueError(v)
 
 
-def replay(case, model, outdir, minify=False):
+def replay(case, model, outdir, minify=False, keep_all=False):
     """Build the closed program with native go and with the real gopherjs; return both transcripts."""
     os.makedirs(outdir, exist_ok=True)
     src = replay_program(case, model)
@@ -686,7 +688,7 @@ def replay(case, model, outdir, minify=False):
     files.update({k: bake_yields(v, model) for k, v in (getattr(case, 'files', None) or {}).items()})
     core.write_pkg(outdir, files, module='verifprog' if getattr(case, 'files', None) else 'replay')
     go_rc, go_out, go_err = core.go_run(outdir)
-    ok, js = core.compile_js(outdir, minify=minify)
+    ok, js = core.compile_js(outdir, minify=minify, keep_all=keep_all)
     if not ok:
         js_rc, js_out, js_err = None, '', js
     else:
